@@ -283,7 +283,11 @@ FUNCTIONS = list(_s.FUNCTIONS) + [
         assigns SB(this).base, SB(this).pos, SB(this).len, this->bytes
         ensures this->bytes.size == 0 && SB(this).pos == 0 && SB(this).len == 0 && SB(this).base == this->bytes.data"""},
     {'q': 'Pistache::StreamCursor::Token::text'},
-    {'q': 'Pistache::Http::Private::RequestLineStep::apply', 'hoist_all': True, 'dead_ok': ['return State::Again;'], 'contract': """
+    {'q': 'Pistache::Http::Private::RequestLineStep::apply', 'hoist_all': True, 'dead_ok': ['return State::Again;'],
+     # L8 (no partial token is stored): what goes into the message was cut out of the input at a delimiter that was seen -- a token that
+     # merely ran into the end of the buffer is never stored, because the step is re-run on the longer input and must then store the same
+     'ghost': [('Pistache::Http::Uri::Query::add', 'before', '__CPROVER_assert(!g_hit_end, "L8: a query parameter is stored only when its terminating delimiter was seen");')],
+     'contract': """
         requires CUR_PRE(cursor) && FRESH(this, sizeof(*this)) && FRESH(g_req, sizeof(*g_req)) && PTR_EQ(MSG(this), &g_req->vs_base_Message)
         requires vs_exc == 0 && !g_hit_end
         assigns POS(cursor), vs_exc, vs_exc_code, g_hit_end, g_req->method_, g_req->resource_, g_req->query_.o, g_req->vs_base_Message.version_
@@ -304,7 +308,7 @@ FUNCTIONS = list(_s.FUNCTIONS) + [
         invariant LOOP_ENTRY(POS(cursor)) <= POS(cursor) && POS(cursor) <= LEN(cursor) && (g_hit_end ==> POS(cursor) + 1 >= LEN(cursor))
         decreases LEN(cursor) - POS(cursor)""", """
         assigns POS(cursor), g_hit_end, n, vs_exc, g_req->query_.o, $HOISTED
-        invariant LOOP_ENTRY(POS(cursor)) <= POS(cursor) && POS(cursor) <= LEN(cursor) && (g_hit_end ==> POS(cursor) + 1 >= LEN(cursor)) && vs_exc == 0
+        invariant LOOP_ENTRY(POS(cursor)) <= POS(cursor) && POS(cursor) <= LEN(cursor) && !g_hit_end && vs_exc == 0
         decreases LEN(cursor) - POS(cursor)""", """
         assigns POS(cursor), g_hit_end
         invariant LOOP_ENTRY(POS(cursor)) <= POS(cursor) && POS(cursor) <= LEN(cursor) && (g_hit_end ==> POS(cursor) + 1 >= LEN(cursor))
